@@ -374,6 +374,12 @@ class BodyPartReader:
                 decoded_data.extend(d)
                 if 0 < self._client_max_size < len(decoded_data):
                     raise self._max_size_error_cls(self._client_max_size)
+            if self._decompressor is not None and not self._decompressor.eof:
+                # The part has ended inside the compressed stream.
+                raise ValueError(
+                    "Content-Encoding: %s data of the part is truncated"
+                    % self.headers.get(CONTENT_ENCODING)
+                )
             return decoded_data
         return data
 
